@@ -112,6 +112,10 @@ type ICase struct{ V int32 }
 type LCase struct{ V int64 }
 
 func checkITF(v int32, rec *h.Rec) {
+	h.Safe(rec, fmt.Sprintf("itf8 codec on %d (%#x)", v, uint32(v)), func() { checkITFRaw(v, rec) })
+}
+
+func checkITFRaw(v int32, rec *h.Rec) {
 	var buf [8]byte
 	for i := range buf {
 		buf[i] = 0xa5
@@ -155,6 +159,10 @@ func checkITF(v int32, rec *h.Rec) {
 }
 
 func checkLTF(v int64, rec *h.Rec) {
+	h.Safe(rec, fmt.Sprintf("ltf8 codec on %d (%#x)", v, uint64(v)), func() { checkLTFRaw(v, rec) })
+}
+
+func checkLTFRaw(v int64, rec *h.Rec) {
 	var buf [12]byte
 	for i := range buf {
 		buf[i] = 0xa5
@@ -245,7 +253,7 @@ func itfEnum(ctx *h.Ctx) {
 	}
 	try := func(v int32) bool {
 		r := h.Rec{}
-		h.Safe(&r, fmt.Sprintf("itf8 codec on %d", v), func() { checkITF(v, &r) })
+		checkITF(v, &r)
 		evals++
 		if itf8.Len(v) >= 2 && !isPow2ish32(uint32(v)) {
 			nt++
@@ -306,7 +314,7 @@ func ltfEnum(ctx *h.Ctx) {
 	var evals, nt uint64
 	try := func(v int64) bool {
 		r := h.Rec{}
-		h.Safe(&r, fmt.Sprintf("ltf8 codec on %d", v), func() { checkLTF(v, &r) })
+		checkLTF(v, &r)
 		evals++
 		if ltf8.Len(v) >= 2 && !isPow2ish64(uint64(v)) {
 			nt++
@@ -505,5 +513,6 @@ func TestProp(t *testing.T) {
 			rec.Class(fmt.Sprintf("len%d", ltf8.Len(c.V)))
 		}),
 		h.Rapid("decode_bytes", h.Opt{Quick: 600000, Thorough: 6000000}, drawD, runD),
+		h.Rapid("cram_stream", h.Opt{Quick: 40000, Thorough: 600000}, drawS, runS),
 	)
 }
